@@ -232,6 +232,27 @@ pub fn run(ctx: &Ctx, rep: &mut Report) {
         let mut remote: Vec<[u8; 32]> = Vec::new();
         let mut canon_taken_remotely: Vec<Address> = Vec::new();
         let mut alive = true;
+        // one universe in six starts with many registrations (20 canonical tokens): what an id
+        // resolves to must not depend on how many ids the service has seen
+        if rng.chance(1, 6) {
+            let admin = w.users[3].clone();
+            for _ in 0..20 {
+                let tok = make_token(&mut w.u, TokKind::Sac, &admin, &mut rng).addr;
+                let view_id = w.view_canonical_id(&tok);
+                let o = w.do_register_canonical(&tok);
+                if let Ok(id) = o.res {
+                    if id == view_id {
+                        w.model.tokens.insert(id, TokenRec { id, addr: tok.clone(), mode: TokMode::Lock, name: vec![], symbol: vec![], decimals: 7, its_can_mint: false, minter: None });
+                        canon.push((tok, id));
+                    }
+                }
+            }
+            rep.count("universe:many-registrations");
+            if let Some(dd) = w.check_registry() {
+                rep.violation("registry-entry-changed", dd);
+                alive = false;
+            }
+        }
         let unknown_fns = unknown_entry_points("interchain-token-service", &["owner", "transfer_ownership", "version", "upgrade", "migrate"]);
         let mut opseq: Vec<&str> = OPS.to_vec();
         rng.shuffle(&mut opseq);
